@@ -613,7 +613,7 @@ class OrConstraint(AbstractConstraint):
                     ],
                 ]
                 yield Constraint(
-                    varname, ConstraintType.one_of, True, list(set(constraints))
+                    varname, ConstraintType.one_of, True, list(dict.fromkeys(constraints))
                 )
 
     def _constraint_from_list(
